@@ -94,6 +94,28 @@ pub fn run_c03(ctx: &Ctx) {
         if !r.ok() || r.line() != want { ctx.violation(format!("C03:cli:{shape}:{}", if r.ok() { "wrong-key" } else { "refused" }), format!("`export --hd-path {text}` printed {:?}, BIP-32 CKDpriv gives {want}", trunc(&r.line(), 80)), cmd.replay("cli-derivation", i, Build::Release)) }
     });
 }
+/// C03 on the CLI: one selector on the command line while the OTHER one is present in the environment (an exported HD_PATH or
+/// ACCOUNT_INDEX left over in the session). The combination is refused by the pinned tool; whatever an implementation makes of
+/// it, a key that is printed for an explicit flag is the key of the path that flag names - never the ambient one's.
+pub fn run_c03_ambient(ctx: &Ctx) {
+    let curve = Curve::new(); let subs = ["export", "address", "public-key"];
+    let flags: Vec<(Vec<String>, Vec<u32>)> = vec![(vec!["--account-index".into(), "1".into()], default_path(1)), (vec!["--account-index".into(), "0".into()], default_path(0)), (vec!["--account-index".into(), "7".into()], default_path(7)),
+        (vec!["--hd-path".into(), "m/44'/60'/0'/0/1".into()], default_path(1)), (vec!["--hd-path".into(), "m/0".into()], vec![0]), (vec!["--hd-path".into(), "m/44'/60'/1'".into()], vec![44 | HARD, 60 | HARD, 1 | HARD])];
+    let ambient: Vec<(&str, &str)> = vec![("HD_PATH", "m/44'/60'/0'/0/0"), ("HD_PATH", "m/44'/60'/0'/0/5"), ("HD_PATH", "m/1'"), ("HD_PATH", ""), ("ACCOUNT_INDEX", "0"), ("ACCOUNT_INDEX", "5"), ("ACCOUNT_INDEX", ""), ("HD_PATH+ACCOUNT_INDEX", "m/2'|3")];
+    let total = (subs.len() * flags.len() * ambient.len()) as u64;
+    ctx.sweep("cli-flag-selector-against-an-ambient-selector", "{export, address, public-key} x 6 explicit selectors (--account-index 0 / 1 / 7, --hd-path of depth 1 / 3 / 5) x 8 ambient settings (HD_PATH = 3 paths / empty, ACCOUNT_INDEX = 0 / 5 / empty, both): refused, or the key of the path the FLAG names", total, |i| {
+        let sub = subs[i as usize % 3]; let (fl, path) = &flags[(i as usize / 3) % flags.len()]; let (var, val) = ambient[i as usize / (3 * flags.len())];
+        let mut cmd = Cmd::new(&[sub, "--mnemonic", GANACHE]); for a in fl { cmd = cmd.arg(a); }
+        if var == "HD_PATH+ACCOUNT_INDEX" { let (a, b) = val.split_once('|').unwrap(); cmd = cmd.env("HD_PATH", a).env("ACCOUNT_INDEX", b); } else { cmd = cmd.env(var, val); }
+        let r = cmd.run(Build::Release); let shape = format!("{sub}:flag={},ambient={var}{}", &fl[0][2..], if val.is_empty() { "-empty" } else { "" });
+        ctx.sample("cli-flag-selector-against-an-ambient-selector", || serde_json::json!({"command": trunc(&cmd.shown(), 300)}));
+        if crash(ctx, "C03", "cli-flag-selector-against-an-ambient-selector", i, &shape, &cmd, &r) { return; }
+        ctx.eval(format!("{shape}:{}", if r.ok() { "printed" } else { "refused" }));
+        let key = key_of(&curve, GANACHE, "", path);
+        let want = match sub { "export" => format!("0x{}", key.to_hex64()), "address" => address_text(&curve, &key), _ => pubkey_text(&curve, &key) };
+        if r.ok() && r.line() != want { ctx.violation(format!("C03:cli:{sub}:flag={},ambient={var}:not-the-key-of-the-flag", &fl[0][2..]), format!("`{sub} {}` with {var}={val:?} in the environment printed {:?}; the key the flag selects gives {want}", fl.join(" "), trunc(&r.line(), 80)), cmd.replay("cli-flag-selector-against-an-ambient-selector", i, Build::Release)) }
+    });
+}
 /// C05 on the CLI: `sign raw` over accounts x boundary digests
 pub fn run_c05(ctx: &Ctx) {
     let curve = Curve::new(); let n = secp::n();
